@@ -48,7 +48,7 @@ func init() {
 				Bound: "a list under one key on both sides, length<=2 (quick) / 3 (thorough), entries scalar | {a} | {a,b}; every equality pattern among the entries is solver-decided"},
 		},
 		Assume:  toolAssume,
-		Outside: "deeper trees, longer lists; file formats and the I/O glue of cmd/bkld/main.go (diffDoc is called directly; base and target are $-free so Document.Process is the identity); pairs inside the known-finding regions C15-R1..R4 (their witnesses are replayed natively on every run)",
+		Outside: "deeper trees, longer lists; file formats and the I/O glue of cmd/bkld/main.go (diffDoc is called directly; base and target are $-free so Document.Process is the identity)",
 	})
 	reg(propSpec{
 		ID: "C16",
@@ -61,7 +61,7 @@ func init() {
 				Bound: "three flat inputs over keys {a,b}, folded as cmd/bkli main does"},
 		},
 		Assume:  toolAssume,
-		Outside: "four inputs; deeper trees; file formats and main.go glue (the fold of main is reproduced in the harness; cmd/bkld/diff.go is overlaid verbatim into package main of cmd/bkli for the round trip); known-finding regions C16-R1, C16-R3 and, for the round trip, C15-R1..R4",
+		Outside: "four inputs; deeper trees; file formats and main.go glue (the fold of main is reproduced in the harness; cmd/bkld/diff.go is overlaid verbatim into package main of cmd/bkli for the round trip); known-finding region C16-R3 (lists whose shared entries are ordered differently)",
 	})
 	reg(propSpec{
 		ID: "C17",
@@ -240,13 +240,13 @@ func init() {
 		ID: "C09",
 		Harnesses: []harnessSpec{
 			{Pkg: "bkl", Func: "HarnessC09_order", Tiers: "qt", Order: true, Covers: []string{"order.output", "order.error"},
-				Bound: "8 input families (3-key maps with nulls, 4 $output selections, 3 named $repeat counts, flags/values transforms, layering with $delete and additions, $merge with overlapping keys, interpolated/$env keys of which two collide after evaluation, several $required); leaves symbolic-kind scalars; one (quick) / two (thorough) `range`-over-map instances per evaluation leave insertion order, over all permutations and with inserted keys visited or not; every path compared with a canonical reference run"},
+				Bound: "9 input families (3-key maps with nulls, 4 $output selections, 3 named $repeat counts, flags/values transforms, layering with $delete and additions, $merge with overlapping keys, interpolated/$env keys of which two collide after evaluation, several $required, a $merge whose target lies inside its own host); leaves symbolic-kind scalars; one (quick) / two (thorough) `range`-over-map instances per evaluation leave insertion order, over all permutations and with inserted keys visited or not; every path compared with a canonical reference run"},
 		},
 		Assume: append([]string{
 			"map iteration: any order is possible at each range; exploration is budgeted to 1 (quick) / 2 (thorough) permuted range instances per evaluation - which instances is itself explored",
 			"stores to package-level variables after init are recorded in the evidence (none on the unchanged tree): the basis for independence from concurrent evaluations",
 		}, pipeAssume...),
-		Outside: "goroutine interleavings and the race detector, separate processes, the encoders' own determinism, evaluations in which three or more ranges must deviate together; which error is returned; known finding C09-K1",
+		Outside: "goroutine interleavings and the race detector, separate processes, the encoders' own determinism, evaluations in which three or more ranges must deviate together; which error is returned",
 	})
 	reg(propSpec{
 		ID: "C19",
